@@ -170,7 +170,7 @@ class Fld:
         raise Unsupported("% on a field value")
 
     def _cmp_ok(self, o):
-        if self.kind.modulus is not None and not (self.reduced and o.reduced):
+        if self.kind.modulus is not None and cur().in_source and not (self.reduced and o.reduced):
             cur().safety("compare-canonical", False,
                          "comparison of an integer that is not reduced modulo P")
 
@@ -273,6 +273,7 @@ class Path:
         self.notes = []
         self.obl_count = 0
         self.ghost = {}             # free-form per-path ghost state for contracts
+        self.in_source = False      # True while repository source is being executed (not spec code)
 
     # ---- decisions ---------------------------------------------------------------------
     def _choose(self, n, descr):
